@@ -8,8 +8,10 @@ use std::collections::BTreeMap;
 use std::sync::Arc;
 
 pub const ID_A: &str = "ab5f5a62-f6fc-46d1-aa84-51ccc51ec367"; // ask slot 0 AND bid slot 0
-pub const ID_A2: &str = "11111111-1111-4111-8111-111111111111"; // ask slot 1
-pub const ID_B2: &str = "22222222-2222-4222-8222-222222222222"; // bid slot 1
+pub const ID_A2: &str = "00000000-0000-0000-0000-000000000000"; // ask slot 1: the nil UUID
+pub const ID_B2: &str = "ffffffff-ffff-ffff-ffff-ffffffffffff"; // bid slot 1: the all-ones UUID
+/// canonical spelling of the id whose UPPER-CASE un-hyphenated spelling keys the legacy ask
+pub const ID_LEGACY_ASK: &str = "abcdef12-3456-4789-8abc-def012345678";
 pub const ID_UNUSED: &str = "99999999-9999-4999-8999-999999999999";
 pub const ID_A3: &str = "33333333-3333-4333-8333-333333333333"; // ask slot 2 (same owner as slot 0)
 pub const ID_B3: &str = "44444444-4444-4444-8444-444444444444"; // bid slot 2 (same owner as slot 0)
@@ -18,6 +20,11 @@ pub const BID_IDS: [&str; 3] = [ID_A, ID_B2, ID_B3];
 
 pub fn unhyphen(id: &str) -> String {
     id.replace('-', "")
+}
+
+/// storage key of the legacy ask: un-hyphenated and upper-case (earlier versions took any spelling the uuid parser accepts)
+pub fn legacy_ask_key() -> String {
+    unhyphen(ID_LEGACY_ASK).to_uppercase()
 }
 
 /// A request, in the harness's own terms. The JSON delivered to the contract is derived from it.
